@@ -279,7 +279,7 @@ theorem parse_succ (g : NodeGrammar) (uni : Uni) :
           | fail m' => rw [(ih _ _).eq_of hr nofun]
           | ok i' m' v => rw [(ih _ _).eq_of hr nofun]
     | array k x =>
-      simp only [parse] at hne ⊢
+      simp only [parse, arrayTryInto_arrayLoop] at hne ⊢
       have hl := arrayLoop_mono (ih inh x) k []
       cases hr : arrayLoop (parse g uni n inh x) k i m [] with
       | oof => rw [hr] at hne; exact absurd rfl hne
